@@ -223,6 +223,11 @@ def gen_case(rng, op):
                                     -0.1 if rng.random() < 0.3 else 0.5, 1.5 if rng.random() < 0.3 else 1.0])
     else:
         raise ValueError(op)
+    if (op in GENERATORS or op in SMOOTHERS) and rng.random() < 0.04:
+        # nothing unobserved: the wrappers return the input screen itself
+        full = gen_screen(rng, "full")
+        full["mask"] = [True] * len(full["snames"])
+        raw = full
     return {"op": op, "params": p, "raw": raw, "npseed": seed}
 
 
@@ -599,7 +604,7 @@ def oracles_c13(res, case, o):
 def run_property(ctx, res, prop, oracle, rule):
     res.rule = rule
     rng = ctx.subrng(prop, "prep")
-    per_op = ctx.scale(40, 600, 300)
+    per_op = ctx.scale(80, 700, 250)
     lines, expect, cases = [], [], []
     for op in OPS:
         for _ in range(per_op):
